@@ -148,7 +148,7 @@ def basis_spline(  # pylint: disable=dangerous-default-value  # always replaced 
         # that point); the recursion below needs them in non-decreasing order,
         # whatever order the caller listed them in (as in R and patsy).
         knots = [] if knots is None else sorted(knots)
-        if df:
+        if df is not None:
             nknots = df - degree - (1 if include_intercept else 0)
             if nknots < 0:
                 raise ValueError(
